@@ -2,7 +2,7 @@
 (* Bounded exhaustive configuration of CertVerifyDefs: TLC enumerates the verification grid, checks the sanity
    invariants of ShouldAccept and prints every scenario for replay. *)
 EXTENDS CertVerifyDefs
-Certs == {"valid", "wrongname", "untrusted", "expired", "notyet"}
+Certs == {"valid", "wrongname", "untrusted", "expired", "notyet", "expired-wrongname", "notyet-wrongname"}
 \* an IP literal is never sent as SNI (RFC 6066) but is still the name to verify
 Names == {"example.com", "another.example", "192.0.2.7"}
 ITVs == {"", "*", "example.com", "another.example"}
